@@ -72,6 +72,15 @@ CHECKS["C03"] = ("exploration",
   "640/9600 streams of 1-400 commands from a master grammar (SELECT switches incl. re-selects and the configured target.db, writes in any letter case, PING, MULTI..EXEC, sentinel hellos, EVAL/SCRIPT/EVALSHA, opinfo, keep-alive newlines) under 16/64 configurations (db/key white/black lists, filter.lua, target.db, resume, sender.count x sender.size) and arrival plans (all at once, 1 command/ms, arbitrary byte splits, groups 480..520 ms or 1.2 s apart); the data commands applied at the target (bookkeeping stripped, no foreign MULTI/EXEC) must equal the reference in order, arguments and database, exactly once, within 5 s of the last byte. Evidence counts observed batch partitions (>20k flushes) and the worst flush latency.",
   "Trusted: lib/reffilter, lib/miniredis, lib/fakesource. 'All timings' is sampled; PINGs are not compared; cluster targets out of reach.", "DESIGN.md §5/C03")
 
+CHECKS["C04"] = ("fault_enumeration",
+  "crash-point enumeration over a recorded history: the byte stream the model target received in an uninterrupted resume-enabled end-to-end run is cut at every command boundary and at every byte of a sample of commands, each prefix replayed into a model Redis with MULTI/EXEC semantics and compared with the reference source history up to the stored checkpoint offset; real restarts from sampled cut states; Go race detector",
+  "16/192 histories (multi-database streams with transactions, pings, filtered commands, non-idempotent INCR/APPEND/RPUSH; sender.count {1,2,5,1024}; arrival plans that let the 500 ms ticker split batches; db/key filters) give >16k (quick) cut states: for each, the newest stored checkpoint must carry the announced run id and version, an offset that is exactly the end of a forwarded command, sit in the database that command ran in, and the data must equal the reference history up to that offset (or the post-full-sync state when no checkpoint exists yet). From 88/2000+ distinct checkpoints a real DbSyncer is restarted on that state against a master honouring PSYNC <id> <offset+1>: it must send exactly that PSYNC and end with the uninterrupted run's dataset (nothing lost, nothing applied twice).",
+  "Trusted: lib/miniredis MULTI/EXEC + disconnect semantics, reference history via lib/reffilter. A cut after byte k and 'the target ignores everything after byte k' are the same event for the target; partial application inside one command is not a Redis behaviour.", "DESIGN.md §5/C04")
+CHECKS["C08"] = ("fault_enumeration",
+  "history monitor at the master: every REPLCONF ACK and PSYNC is recorded with the number of stream bytes written by then; inequalities valid for any tick phase, equality after a quiet period; link drops enumerated over position classes; final dataset compared with the reference history",
+  "48/384 end-to-end histories of 6-12 s wall-clock (several 1 s ack ticks): start offsets {0,1,2^31-5,2^40} x traffic plans (early burst then idle, burst-idle-burst, steady trickle) x drop plans (none, at a command boundary, inside a command, one byte after a boundary, twice, while idle) x resume on/off. Every ACK <= start+written and non-decreasing; after 2.7 s of silence ACK == start+total; every reconnect sends PSYNC <announced id> <start+received+1>; the final target equals the reference history (a lost or repeated byte changes INCR/APPEND/RPUSH results); with resume on every stored checkpoint offset is the end of a forwarded command.",
+  "Trusted: lib/fakesource bookkeeping (drops are graceful closes, so written == received). Timing enters only through the 2.7 s quiet period (>= 2 ticks).", "DESIGN.md §5/C08")
+
 PENDING_REASON = "monitor not built yet in this revision of /verif (planned in DESIGN.md §5); no claim is made"
 
 def main():
